@@ -47,7 +47,7 @@ PLAN = {
         ("CasesValues.cfg", "case", None),
         ("CasesValuesDep.cfg", "case", None),
         ("NewCases.cfg", "case", None),
-        ("InputFileThorough.cfg", "graph", 40000),
+        ("InputFileThorough.cfg", "graph", None),
         ("InputFileDeep.cfg", "graph", None),
         ("InputFilePrimed.cfg", "graph", None),
         ("InputFilePrimedDeep.cfg", "graph", None),
@@ -362,14 +362,15 @@ def run(tier, seed):
             "bounds: one parameter under test per ui.json; 11 classic form kinds, 14 parameter kinds, value tokens of "
             "spec/uijson/UiJsonValidate.tla; call sequences <= 3 (quick) / <= 4-5 (thorough) on one object",
             "switch space: group x groupOptional x group enabled x dependency x dependencyType x dependency state x "
-            "dependency kind (boolean / optional form) x optional x enabled, canonical combinations (180 per kind)",
+            "dependency kind (boolean / optional form) x the checkbox's own enabled member x optional x enabled, canonical "
+            "combinations (340 per kind)",
             "'optional' is enumerated as absent / true (an explicit optional=false is ambiguous between the "
-            "documentation and utils.requires_value and is not enumerated); list values and multiSelect forms are "
-            "not enumerated; verdicts only (exception classes and messages are not compared)",
+            "documentation and utils.requires_value and is not enumerated); lists are enumerated only where their items are "
+            "of an undeclared type, multiSelect forms under test are not enumerated; verdicts only (no exception classes)",
             "new API: None is admissible for type-restricted parameters (parameter_test.py pins it); the "
             "optional/enabled/dependency hierarchy exists only on the classic path and is checked there",
             "both tiers replay every exported call / path-cover sequence (a seeded sample is drawn only if a "
-            "configuration exceeds its limit: InputFileThorough.cfg > 40000 sequences)",
+            "configuration is given a limit in PLAN; none is at present)",
         ],
     }
 
